@@ -112,6 +112,32 @@ func (g *scGen) action(ind, depth int) {
 		g.emit(ind)
 	case choice < 9: // assignment to the nearest binding
 		n := g.name()
+		if g.r.Chance(1, 5) {
+			// tuple assignment without declaration: each target is resolved on its own (one may be a global, the other a local)
+			switch g.r.Intn(3) {
+			case 0:
+				g.line(ind, "x, y = x+y, y*2+%d", g.K())
+			case 1:
+				g.line(ind, "y, x = x+%d, y+%d", g.K(), g.K())
+			default:
+				g.line(ind, "x, y = bump(y), x+%d", g.K())
+			}
+			g.emit(ind)
+			return
+		}
+		if g.r.Chance(1, 6) {
+			// a function literal with names of its own: afterwards the enclosing function's names are what they were
+			g.uid++
+			inner := g.name()
+			g.line(ind, "lit%d := func(%s int) int {", g.uid, inner)
+			g.line(ind+1, "%s += %d", inner, g.K())
+			g.line(ind+1, "w := %s * 2", inner)
+			g.line(ind+1, "return w")
+			g.line(ind, "}")
+			g.line(ind, "%s = lit%d(%s)", n, g.uid, g.name())
+			g.emit(ind)
+			return
+		}
 		switch g.r.Intn(4) {
 		case 0:
 			g.line(ind, "%s = %d", n, g.K())
@@ -272,7 +298,7 @@ func c08Case(seed int64, idx int) packedCase {
 var c08Budget = core.Budget{MaxSteps: 100000, MaxDepth: 200, MaxLen: 1 << 12, MaxOut: 1 << 18}
 
 func runC08(r *core.Run) {
-	r.SetRule("scope-tree functions over the names x and y (package globals, optionally also parameters): := / var / x, y := declarations (new, shadowing, mixed redeclaration), assignments, if with and without init, for with a loop variable from the name set, per-iteration body variables, range with key/value from the name set, switch clauses; both names are printed after every declaration, assignment and block end, and the globals after the call; plus two-package programs in which parameters, locals, block-level variables, loop and range variables, switch-clause and if-init variables are named like an imported package (or its alias, or fmt), with stores, compound assignments and ++ through them and uses of the package before and after the block. non-trivial = accepted by Go and at least 5 emits executed; distinct by function text")
+	r.SetRule("scope-tree functions over the names x and y (package globals, optionally also parameters): := / var / x, y := declarations (new, shadowing, mixed redeclaration), assignments (also parallel ones whose targets resolve to a local and a global), function literals with parameters named like the outer names, if with and without init, for with a loop variable from the name set, per-iteration body variables, range with key/value from the name set, switch clauses; both names are printed after every declaration, assignment and block end, and the globals after the call; plus two-package programs in which parameters, locals, block-level variables, loop and range variables, switch-clause and if-init variables are named like an imported package (or its alias, or fmt), with stores, compound assignments and ++ through them and uses of the package before and after the block. non-trivial = accepted by Go and at least 5 emits executed; distinct by function text")
 	r.Assume("Go toolchain (GOARCH=386) as the reference")
 	n := r.N(4000, 80000)
 	cases := make([]packedCase, n)
